@@ -48,10 +48,13 @@ let rec run = function
   | L [L [recursive; full; delay; root; mask; fi; fm; fs_; L faults; filt]; fs0; acts] ->
     (* no move-out flag given: the current code (repair F10) *)
     run (L [L [recursive; full; delay; root; mask; fi; fm; fs_; L faults; filt; A "1"]; fs0; acts])
-  | L [L [recursive; full; delay; root; mask; fi; fm; fs_; L faults; filt; fo]; L [L ents; nino]; L acts] ->
+  | L [L [recursive; full; delay; root; mask; fi; fm; fs_; L faults; filt; fo]; fs0; acts] ->
+    (* no relabel flag given: the current code (repair F10e) *)
+    run (L [L [recursive; full; delay; root; mask; fi; fm; fs_; L faults; filt; fo; A "1"]; fs0; acts])
+  | L [L [recursive; full; delay; root; mask; fi; fm; fs_; L faults; filt; fo; fr]; L [L ents; nino]; L acts] ->
     let c = { c_recursive = bool_of recursive; c_mask = (match mask with A "all" -> coq_WATCHDOG_ALL | m -> n_of m);
               c_root = bytes_of root; c_fix_ignored = bool_of fi; c_fix_movein = bool_of fm;
-              c_fix_simulate = bool_of fs_; c_fix_moveout = bool_of fo; c_faults = Stdlib.List.map nat_of faults } in
+              c_fix_simulate = bool_of fs_; c_fix_relabel = bool_of fr; c_fix_moveout = bool_of fo; c_faults = Stdlib.List.map nat_of faults } in
     let p = { pc_reader = c; pc_full = bool_of full;
               pc_filter = (match filt with A "none" -> None | L l -> Some (Stdlib.List.map base_of l) | _ -> failwith "filter");
               pc_delay = n_of delay } in
